@@ -21,7 +21,10 @@ Import ListNotations.
 
     It is false of the faithful model, in two ways that both reproduce on the real code
     (C17_reversible_sound_refuted below, known findings C17-down-drop-table-blocked and
-    C17-autoindex-drop-wrong-index).  What is proved (partial):
+    C17-autoindex-drop-wrong-index; the latter is FIXED in the Go code since the patch
+    "sqlite planner rebuilds the table when the dropped index backs an inline UNIQUE constraint":
+    [alterable] of PlanModel.v follows it, the drop of an inline UNIQUE is now a table rebuild, which
+    is not flagged reversible).  What is proved (partial):
 
     (a) [C17_reversible_sound_partial]: every well-formed engine state [d] (rows included, any
         [foreign_keys] / transaction flag), every [from], every well-formed desired schema [to] and
@@ -71,7 +74,8 @@ Print Assumptions C17_reversible_sound_partial.
     UNIQUE constraints, and every explicit index has a name outside the sqlite_autoindex namespace, an
     inspected form that is a fixed point of [inspect_index], that CREATE INDEX accepts and that the
     rows satisfy when UNIQUE.  The exceptions are exactly the refuting inputs: an inline UNIQUE
-    ([idx_ok] fails: known finding C17-autoindex-drop-wrong-index), a created table that cannot be
+    ([idx_ok] fails: the former known finding C17-autoindex-drop-wrong-index, fixed, see the header; the
+    premise is kept because the proof is by the ALTER path of a catalogue without inline UNIQUE), a created table that cannot be
     dropped again ([droppable_along] fails: C17_reversible_sound_refuted), and -- outside this
     theorem -- DropTable changes (C17_reversible_sound_droptables_partial). *)
 Theorem C17_reversible_sound_except :
